@@ -354,6 +354,8 @@ def gj_oracle(case, impl, R, stats=None):
 
 
 def check_gj_cases(cases, R, stats, sample_base=0, fn=None, label='py'):
+    if not cases:
+        return
     impls = [run_gj_impl(c, fn) for c in cases]
     lines = []
     for c in cases:
@@ -374,7 +376,7 @@ def check_gj_cases(cases, R, stats, sample_base=0, fn=None, label='py'):
             R.count('L2:m-differs')
         if mod != orig:
             R.count('repair-matters')
-        o = gj_oracle(c, im, R, stats)
+        o = gj_oracle(c if label == 'py' else dict(c, path=label), im, R, stats)
         R.count('%s:%s' % (label, o))
         if label == 'py':
             R.count('style:' + c['style'])
@@ -517,6 +519,8 @@ def helper_oracle(c, got, R):
 
 
 def check_helpers(cases, R, mod=None, label='py'):
+    if not cases:
+        return
     impls = [run_helper_impl(c, mod) for c in cases]
     lines = [helper_line(c) for c in cases]
     out = H.run_model('C13', lines)
@@ -527,7 +531,7 @@ def check_helpers(cases, R, mod=None, label='py'):
         if g != mo:
             R.disagree({'case': c, 'line': ln, 'path': label}, mo, g,
                        c['kind'] + ' (%s)' % label)
-        helper_oracle(c, got, R)
+        helper_oracle(c if label == 'py' else dict(c, path=label), got, R)
         R.count('%s:helper:%s' % (label, c['kind']))
         R.case(label + json.dumps(c, sort_keys=True), c['n'] >= 2,
                {'case': c, 'impl': g, 'model': mo} if k < 1 and label == 'py' else None)
@@ -761,12 +765,15 @@ def corpus():
 def replay_case(case, R, work):
     stats = {}
     k = case.get('kind')
-    if k == 'gj':
-        check_gj_cases([case], R, stats, 0)
-        if case.get('path') == 'compiled':
-            check_compiled([case], [], R, work, stats)
-    elif k == 'eig':
+    compiled = case.get('path') == 'compiled'
+    case = {kk: v for kk, v in case.items() if kk != 'path'}
+    if k == 'eig':
         eig_oracle(case, R, stats)
+    elif compiled:
+        check_compiled([case] if k == 'gj' else [], [] if k == 'gj' else [case], R,
+                       work, stats)
+    elif k == 'gj':
+        check_gj_cases([case], R, stats, 0)
     else:
         check_helpers([case], R)
 
